@@ -219,6 +219,13 @@ type cmdCase struct {
 	SdkWd     string
 	// PreludeRemove: paths removed after the earlier invocations (an obstacle repaired before the observed run)
 	PreludeRemove []string
+	// PreludeCwd[i] != "": the process stands in this directory while earlier invocation i runs (a host
+	// program that changes its working directory between calls); it is back in Prog.Cwd afterwards
+	PreludeCwd []string
+	// PreludeWrite / PreludeMkdir: after the earlier invocations (and after PreludeRemove) these files are
+	// (re)written and these directories made: what happened to the disk between two invocations of one process
+	PreludeWrite map[string][]byte
+	PreludeMkdir []string
 }
 
 type plugSpec struct {
@@ -285,6 +292,20 @@ func (c *cmdCase) spec(seed uint64) *simrt.Spec {
 		}
 		if len(c.PreludeRemove) > 0 {
 			d["prelude_remove"] = c.PreludeRemove
+		}
+		if len(c.PreludeWrite) > 0 {
+			d["prelude_write"] = c.PreludeWrite
+		}
+		if len(c.PreludeMkdir) > 0 {
+			d["prelude_mkdir"] = c.PreludeMkdir
+		}
+		if len(c.PreludeCwd) > 0 {
+			d["prelude_cwd"] = c.PreludeCwd
+			for _, dir := range c.PreludeCwd {
+				if dir != "" {
+					sp.Dirs = append(sp.Dirs, dir)
+				}
+			}
 		}
 		sp.Driver, _ = json.Marshal(d)
 	}
